@@ -134,7 +134,11 @@ def read(rel):
 def extract_select(facts):
     try:
         src = read("src/actor.rs")
-        body, params = fn_body(src, "run_actor_lifecycle")
+        # the loop lives in actor_lifecycle_body (run_actor_lifecycle wraps it to drain the mailbox
+        # on every exit path); older trees have it in run_actor_lifecycle itself
+        body, params = fn_body(src, "actor_lifecycle_body")
+        if body is None or "select!" not in body:
+            body, params = fn_body(src, "run_actor_lifecycle")
         if body is None:
             raise ValueError("run_actor_lifecycle not found")
         term = mail = None
